@@ -659,6 +659,9 @@ def _worker(args):
     for scn in scns:
         try:
             calls = scenario_requests(S, scn)
+        except S.SolverBudget:
+            cnt("abandoned_solver_budget")
+            continue
         except Exception as e:
             import traceback
             res["orc"].append({"signature": "construction-exception:" + type(e).__name__,
